@@ -70,8 +70,8 @@ RENDERER = {
                   "draw_params": "one object, a list of the same object per drawable, None (renderer's own)"},
     "methods": {
         "add_callback": "used by the traffic-sign boxes themselves (every case with a light / sign)",
-        "clear": "see above", "render": "every case", "render_dynamic": "video-style frames", "render_static": "video-style init",
-        "remove_dynamic": "video-style frames", "draw_list": "entry points", "draw_scenario": "entry point",
+        "clear": "see above", "render": "every case", "render_dynamic": "video-style frames; the collections on the axes after it are observed (axes:* buckets)", "render_static": "video-style init",
+        "remove_dynamic": "video-style frames; what it leaves on the axes is observed after the next render_dynamic (axes:video-frames>=2)", "draw_list": "entry points", "draw_scenario": "entry point",
         "create_video": "needs ffmpeg (not installed) and writes a file: outside; its per-frame step "
                         "(remove_dynamic, clear, draw_list, render_dynamic on one parameter object whose window is re-set) is replayed as 'video' style",
         "draw_dynamic_obstacle": "through obstacle.draw with the sub-group / the whole parameter object / None",
